@@ -58,14 +58,24 @@ KeyTexts == << <<"S","i","z","e">>, <<"(","S","i","z","e"," ","+"," ","1",")">>,
 (* function calls whose text arguments render to the same text when written without quotes: `concat('a, b')` and `concat('a', 'b')` *)
 ChooseArgText == /\ phase = "start" /\ kind' = "argtext" /\ exprs' = <<>> /\ lits' = << <<"a",","," ","b">>, <<"a","b">>, <<"a",","," ","b">> >>
                  /\ style' = "min" /\ wop' = "" /\ wlit' = 0 /\ phase' = "done"
+(* products beyond 64 bits: the factors travel as digit texts in `lits`, the judge multiplies them exactly (BigNat) and accepts the *)
+(* printed value within relative 10^-9 (such values are floating-point numbers)                                                    *)
+BigSets == { << <<"3","0","0","0","0","0","0","0","0","0">>, <<"4">>, <<"1","0","0","0","0","0","0","0","0","0">> >>,
+             << <<"4","2","9","4","9","6","7","2","9","6">>, <<"4","2","9","4","9","6","7","2","9","6">> >>,
+             << <<"2","1","4","7","4","8","3","6","4","8">>, <<"2">> >>,
+             << <<"9","2","2","3","3","7","2","0","3","6","8","5","4","7","7","5","8","0","7">>, <<"3">> >> }
+ChooseBig == /\ phase = "start" /\ kind' = "bigproduct" /\ exprs' = <<>> /\ lits' \in BigSets
+             /\ style' = "min" /\ wop' = "" /\ wlit' = 0 /\ phase' = "done"
 ChooseKeyText == /\ phase = "start" /\ kind' \in {"keytext-after", "keytext-before"}
                  /\ exprs' = << <<"size">>, <<"+", "size", "1">>, <<"length(name)">>, <<"hardlinks">> >> /\ lits' = KeyTexts
                  /\ style' = "min" /\ wop' = "" /\ wlit' = 0 /\ phase' = "done"
-Next == ((ChooseOne \/ ChoosePairOp \/ ChoosePairBr \/ ChooseWhere \/ ChooseList) /\ lits' = <<>>) \/ ChooseKeyText \/ ChooseArgText
+Next == ((ChooseOne \/ ChoosePairOp \/ ChoosePairBr \/ ChooseWhere \/ ChooseList) /\ lits' = <<>>) \/ ChooseKeyText \/ ChooseArgText \/ ChooseBig
 Spec == Init /\ [][Next]_vars
 
 RECURSIVE ColsText(_)
 ColsText(i) == IF i > Len(exprs) THEN "" ELSE ", " \o ArithText(exprs[i], style) \o ColsText(i + 1)
+RECURSIVE ProdText(_)
+ProdText(i) == IF i > Len(lits) THEN "" ELSE (IF i > 1 THEN " * " ELSE "") \o Str(lits[i]) \o ProdText(i + 1)
 RECURSIVE LitsText(_)
 LitsText(i) == IF i > Len(lits) THEN "" ELSE ", '" \o Str(lits[i]) \o "'" \o LitsText(i + 1)
 HasTok(t) == \E j \in 1 .. Len(exprs) : \E i \in 1 .. Len(exprs[j]) : exprs[j][i] = t
@@ -77,12 +87,13 @@ Class == kind \o (IF BareLiteral THEN "/bare-literal" ELSE "") \o (IF NegOnColum
          \o (IF HasTok("neg") /\ ~NegOnColumn /\ ~NegOnBracket THEN "/minus-number" ELSE "") \o "/" \o style
 Query == IF kind = "where"
          THEN "select path from '.' where " \o ArithText(exprs[1], style) \o " " \o OpText(wop) \o " " \o ToString(wlit) \o " into list"
+         ELSE IF kind = "bigproduct" THEN "select path, " \o ProdText(1) \o " from '.' into list"
          ELSE IF kind = "argtext" THEN "select path, concat('a, b'), concat('a', 'b'), concat('a, b') from '.' into list"
          ELSE IF kind = "keytext-before" THEN "select path" \o LitsText(1) \o ColsText(1) \o " from '.' into list"
          ELSE "select path" \o ColsText(1) \o LitsText(1) \o " from '.' into list"
 Scenario == [prop |-> "C15", world |-> "W15", class |-> Class, kind |-> kind, exprs |-> exprs, wop |-> wop, wlit |-> wlit, lits |-> lits,
              env |-> [tz |-> "UTC", cwd |-> 0],
-             runs |-> << [tag |-> "q", ncols |-> IF kind = "where" THEN 1 ELSE 1 + Len(exprs) + Len(lits), chars |-> TRUE, argv |-> << Query >>] >>]
+             runs |-> << [tag |-> "q", ncols |-> IF kind = "where" THEN 1 ELSE IF kind = "bigproduct" THEN 2 ELSE 1 + Len(exprs) + Len(lits), chars |-> TRUE, argv |-> << Query >>] >>]
 EmitWorld == (phase = "start") => PrintT(<<"WORLD", ToJson([key |-> "W15", world |-> W15])>>)
 Emit == phase = "done" => PrintT(<<"REPLAY", ToJson(Scenario)>>)
 =============================================================================
